@@ -11,7 +11,7 @@ from concurrent.futures import ThreadPoolExecutor
 
 V = os.path.dirname(os.path.dirname(os.path.abspath(__file__)))
 # changes that are (also) visible through another property's check
-ALSO = {"C05-s1": ["C15"], "C05-s4": ["C15"], "C05-s5": ["C11", "C12"], "C20-s6": ["C04"], "C04-s5": ["C11"], "C11-s6": ["C05", "C12"], "C05-s8": ["C14"], "C03-s5": ["C04"], "C14-s9": ["C09"], "C18-s8": []}
+ALSO = {"C05-s1": ["C15"], "C05-s4": ["C15"], "C05-s5": ["C11", "C12"], "C20-s6": ["C04"], "C04-s5": ["C11"], "C11-s6": ["C05", "C12"], "C05-s8": ["C14"], "C03-s5": ["C04"], "C14-s9": ["C09"], "C18-s8": [], "C05-s13": ["C12"], "C11-s13": ["C15"], "C13-s13": ["C12"], "C12-s13": ["C13"]}
 
 
 def one(name, workers):
